@@ -124,10 +124,12 @@ class WaitOperationExecutor(OperationExecutor[None]):
         ):
             # The wait is running since an earlier point in time (it is replayed, or its START was
             # applied a round trip ago): park until the time the backend's timer fires, not for the
-            # full duration counted from now. When that time has passed but the record still says
+            # full duration counted from now - but never longer than that (the local clock may be
+            # behind the backend's). When the recorded time has passed and the record still says
             # STARTED the completion is on its way: look again in a second rather than at once.
-            earliest = datetime.datetime.now(tz=datetime.UTC) + datetime.timedelta(
-                seconds=1
-            )
-            suspend_with_optional_resume_timestamp(msg, max(scheduled_end, earliest))
+            now = datetime.datetime.now(tz=datetime.UTC)
+            resume_at = min(scheduled_end, now + datetime.timedelta(seconds=self.seconds))
+            if resume_at <= now:
+                resume_at = now + datetime.timedelta(seconds=1)
+            suspend_with_optional_resume_timestamp(msg, resume_at)
         suspend_with_optional_resume_delay(msg, self.seconds)  # throws suspend
